@@ -558,6 +558,8 @@ outerNew:
 			if reposition {
 				if cursor.Hyperlink != "" {
 					_, _ = vx.tw.WriteString(tparm(osc8, "", ""))
+					cursor.Hyperlink = ""
+					cursor.HyperlinkParams = ""
 				}
 				_, _ = vx.tw.WriteString(tparm(cup, row+1, col+1))
 				reposition = false
@@ -721,7 +723,8 @@ outerNew:
 				}
 			}
 
-			if cursor.Hyperlink != next.Hyperlink {
+			if cursor.Hyperlink != next.Hyperlink ||
+				(next.Hyperlink != "" && cursor.HyperlinkParams != next.HyperlinkParams) {
 				link := next.Hyperlink
 				linkPs := next.HyperlinkParams
 				if link == "" {
